@@ -11,8 +11,13 @@
 //	    check), caused by a message for this validator and role while the duty was running, at most once per
 //	    decided object.
 //
+// The controllers are built with the PRODUCTION constructor (StoredInstances capacity 2). When the controller pushed the
+// running instance out of its container BEFORE that instance decided, "the value decided for the duty's slot" is the
+// value of the (harness-certified) decided message of that height; a second signature over it is classified
+// signed-twice-evicted-undecided (C03 finding), a second signature in every other situation signed-twice.
+//
 // Signatures: signed-undecided-object, signed-before-decision, signed-invalid-value, signed-twice,
-// signed-for-foreign-message, signed-after-finished, signed-wrong-slot.
+// signed-twice-evicted-undecided, signed-for-foreign-message, signed-after-finished, signed-wrong-slot.
 package main
 
 import (
@@ -95,6 +100,9 @@ func (w *world) violate(sig, desc string) {
 		return
 	}
 	w.reported[sig] = true
+	if sig != "signed-twice-evicted-undecided" {
+		w.res.Counters["cap"]++ // the recorded finding must not stop the replay of the remaining behaviours
+	}
 	w.res.Violate(sig, fmt.Sprintf("[%s] %s", w.role, desc), w.beh, w.step)
 }
 
@@ -121,6 +129,7 @@ type ctx struct {
 	startOK   bool
 	foreign   bool
 	msgHeight int // height of the consensus message (0: not a consensus message)
+	decided   []byte // the message is a decided message (aggregated quorum of commits) carrying this value
 	what      string
 }
 
@@ -184,11 +193,16 @@ func (w *world) checkSigs(c ctx, before snap) {
 			continue
 		}
 		decided, val := st.RunningInstance.IsDecided()
-		if !decided {
-			w.violate("signed-before-decision", fmt.Sprintf("validator-key signature although the running instance (height %d) has not decided (%s)", st.RunningInstance.GetHeight(), c.what))
-			continue
-		}
 		h := uint64(st.RunningInstance.GetHeight())
+		// the controller dropped the running instance from its (2-slot) container before it decided: no message reaches it any more
+		detached := !decided && w.base().QBFTController.StoredInstances.FindInstance(specqbft.Height(h)) != st.RunningInstance
+		if !decided {
+			if !(detached && c.decided != nil && uint64(c.msgHeight) == h) {
+				w.violate("signed-before-decision", fmt.Sprintf("validator-key signature although the running instance (height %d) has not decided (%s)", h, c.what))
+				continue
+			}
+			val = c.decided // the decision of the duty's height is the certified decided message itself
+		}
 		if phase0.Slot(h) != st.StartingDuty.Slot {
 			w.violate("signed-wrong-slot", fmt.Sprintf("running instance height %d is not the duty's slot %d", h, st.StartingDuty.Slot))
 			continue
@@ -217,7 +231,11 @@ func (w *world) checkSigs(c ctx, before snap) {
 		k := key(h, sc.ObjRoot, sc.DomainType)
 		w.signed[k]++
 		if w.signed[k] > 1 {
-			w.violate("signed-twice", fmt.Sprintf("decided object %x of height %d was signed %d times (%s)", sc.ObjRoot[:6], h, w.signed[k], c.what))
+			if detached {
+				w.violate("signed-twice-evicted-undecided", fmt.Sprintf("decided object %x of height %d was signed %d times: the controller dropped the running instance before it decided and reports every decided message of its height as new (%s)", sc.ObjRoot[:6], h, w.signed[k], c.what))
+			} else {
+				w.violate("signed-twice", fmt.Sprintf("decided object %x of height %d was signed %d times (%s)", sc.ObjRoot[:6], h, w.signed[k], c.what))
+			}
 		}
 	}
 	if any {
@@ -291,15 +309,13 @@ func (w *world) recvSeq(h int, v string) {
 		w.kit.DecidingMsgs(w.br, w.br, cd, specqbft.Height(h))...)
 }
 
-func (w *world) recvDecided(h int, v string, more bool) {
+func (w *world) recvDecided(h int, v string, q string) {
 	cd := w.kit.ConsensusDataFor(w.role, phase0.Slot(h), v)
 	w.certify(h, cd)
-	signers := w.q
-	if more {
-		signers = w.n
-	}
-	w.deliver(ctx{kind: "msg", msgHeight: h, what: fmt.Sprintf("decided message height %d value %s signers %d", h, v, signers)},
-		w.kit.DecidedMsg(w.br, w.br, cd, specqbft.Height(h), signers))
+	enc, _ := cd.Encode()
+	ids := w.kit.QuorumIDs(q)
+	w.deliver(ctx{kind: "msg", msgHeight: h, decided: enc, what: fmt.Sprintf("decided message height %d value %s signers %v", h, v, ids)},
+		w.kit.DecidedMsgBy(w.br, w.br, cd, specqbft.Height(h), ids))
 }
 
 func otherRole(role string) string {
@@ -366,30 +382,30 @@ func (w *world) recvPost(c string) {
 }
 
 // projection of the real objects on the spec's variables
-func (w *world) project(maxSlot int) map[string]any {
+func (w *world) project() map[string]any {
 	b := w.base()
-	out := map[string]any{"duty": 0, "runH": 0, "dval": "none", "finished": false, "ctrlH": int(b.QBFTController.Height)}
+	out := map[string]any{"duty": 0, "runH": 0, "runIn": false, "dval": "none", "finished": false, "ctrlH": int(b.QBFTController.Height)}
 	if st := b.State; st != nil {
 		out["duty"] = int(st.StartingDuty.Slot)
 		out["finished"] = st.Finished
-		if st.RunningInstance != nil {
-			out["runH"] = int(st.RunningInstance.GetHeight())
+		if ri := st.RunningInstance; ri != nil {
+			out["runH"] = int(ri.GetHeight())
+			out["runIn"] = b.QBFTController.StoredInstances.FindInstance(ri.GetHeight()) == ri
 		}
 		out["dval"] = w.dvalOf()
 	}
-	inst := []string{}
-	for h := 1; h <= maxSlot; h++ {
-		i := b.QBFTController.StoredInstances.FindInstance(specqbft.Height(h))
-		switch {
-		case i == nil:
-			inst = append(inst, "none")
-		case i.State.Decided:
-			inst = append(inst, "dec")
-		default:
-			inst = append(inst, "live")
+	stored := []string{}
+	for _, i := range b.QBFTController.StoredInstances {
+		if i == nil {
+			continue
 		}
+		st := "live"
+		if i.State.Decided {
+			st = "dec"
+		}
+		stored = append(stored, fmt.Sprintf("%d:%s", i.GetHeight(), st))
 	}
-	out["inst"] = inst
+	out["stored"] = stored
 	out["sigs"] = w.sigEntries
 	return out
 }
@@ -398,8 +414,7 @@ func (w *world) conform(b string, i int, spec map[string]any, maxSig int) {
 	if spec == nil {
 		return
 	}
-	insts, _ := spec["inst"].([]any)
-	real := w.project(len(insts))
+	real := w.project()
 	for _, f := range []string{"duty", "runH", "ctrlH"} {
 		if sv, ok := spec[f].(float64); ok && int(sv) != real[f].(int) {
 			w.res.Diverge(b, i, f, int(sv), real[f])
@@ -408,18 +423,23 @@ func (w *world) conform(b string, i int, spec map[string]any, maxSig int) {
 	if sv, ok := spec["dval"].(string); ok && sv != real["dval"].(string) {
 		w.res.Diverge(b, i, "dval", sv, real["dval"])
 	}
-	if sv, ok := spec["finished"].(bool); ok && sv != real["finished"].(bool) {
-		w.res.Diverge(b, i, "finished", sv, real["finished"])
-	}
-	ri := real["inst"].([]string)
-	for h, x := range insts {
-		m, _ := x.(map[string]any)
-		st := vh.Str(m, "st")
-		if st == "run" || st == "stopped" {
-			st = "live"
+	for _, f := range []string{"finished", "runIn"} {
+		if sv, ok := spec[f].(bool); ok && sv != real[f].(bool) {
+			w.res.Diverge(b, i, f, sv, real[f])
 		}
-		if st != ri[h] {
-			w.res.Diverge(b, i, fmt.Sprintf("inst[%d]", h+1), st, ri[h])
+	}
+	if sl, ok := spec["stored"].([]any); ok {
+		want := []string{}
+		for _, x := range sl {
+			m, _ := x.(map[string]any)
+			st := vh.Str(m, "st")
+			if st == "run" || st == "stopped" {
+				st = "live"
+			}
+			want = append(want, fmt.Sprintf("%d:%s", vh.Int(m, "h"), st))
+		}
+		if strings.Join(want, ",") != strings.Join(real["stored"].([]string), ",") {
+			w.res.Diverge(b, i, "stored", want, real["stored"])
 		}
 	}
 	if sl, ok := spec["sigLog"].([]any); ok && len(sl) < maxSig && len(sl) != w.sigEntries {
@@ -445,7 +465,7 @@ func replay(b vh.Behaviour, role string, n, maxSig int, res *vh.Result) {
 		case "RecvSeq":
 			w.recvSeq(vh.Int(a, "h"), vh.Str(a, "v"))
 		case "RecvDecided":
-			w.recvDecided(vh.Int(a, "h"), vh.Str(a, "v"), vh.Bool(a, "more"))
+			w.recvDecided(vh.Int(a, "h"), vh.Str(a, "v"), vh.Str(a, "q"))
 		case "RecvForeign":
 			w.recvForeign(vh.Str(a, "c"), vh.Int(a, "h"), vh.Str(a, "v"))
 		case "RecvPost":
@@ -466,6 +486,7 @@ func replay(b vh.Behaviour, role string, n, maxSig int, res *vh.Result) {
 func randomRuns(seed int64, runs int, roles []string, res *vh.Result) {
 	rng := rand.New(rand.NewSource(seed))
 	vals := []string{"valid", "alt", "invalid"}
+	quorums := []string{"q1", "q2", "all"}
 	for k := 0; k < runs; k++ {
 		role := roles[rng.Intn(len(roles))]
 		n := []int{4, 4, 4, 7}[rng.Intn(4)]
@@ -477,6 +498,36 @@ func randomRuns(seed int64, runs int, roles []string, res *vh.Result) {
 		}
 		var pending []*seq
 		steps := 14 + rng.Intn(14)
+		// every third run starts with the eviction history: the duty's instance (decided or not) is pushed out of the
+		// controller's 2-slot container by decided messages of two higher heights, then its own decided message is
+		// replayed with the same and with other signer quorums
+		if k%3 == 0 {
+			s := 1 + rng.Intn(2)
+			w.startDuty(s)
+			if hasPre(role) {
+				w.recvPre("quorum")
+			}
+			v := vals[rng.Intn(2)]
+			switch rng.Intn(3) {
+			case 0:
+				w.recvSeq(s, v)
+			case 1:
+				w.recvDecided(s, v, quorums[rng.Intn(3)])
+			}
+			if rng.Intn(4) == 0 {
+				w.recvPost("one")
+			}
+			hs := []int{s + 1, s + 2}
+			if rng.Intn(2) == 0 {
+				hs = []int{s + 2, s + 1}
+			}
+			for _, h := range hs {
+				w.recvDecided(h, vals[rng.Intn(2)], quorums[rng.Intn(3)])
+			}
+			for j := 0; j < 2+rng.Intn(3); j++ {
+				w.recvDecided(s, v, quorums[rng.Intn(3)])
+			}
+		}
 		for i := 0; i < steps; i++ {
 			w.step = i
 			switch x := rng.Intn(12); {
@@ -497,7 +548,7 @@ func randomRuns(seed int64, runs int, roles []string, res *vh.Result) {
 					p.msgs = p.msgs[1:]
 				}
 			case x < 10:
-				w.recvDecided(1+rng.Intn(3), vals[rng.Intn(3)], rng.Intn(2) == 0)
+				w.recvDecided(1+rng.Intn(3), vals[rng.Intn(3)], quorums[rng.Intn(3)])
 			case x < 11:
 				w.recvForeign([]string{"otherValidator", "otherRole"}[rng.Intn(2)], 1+rng.Intn(3), "valid")
 			default:
@@ -542,8 +593,8 @@ func main() {
 				}
 				continue
 			}
-			if res.Counters["violations"] > 40 {
-				continue
+			if res.Counters["cap"] > 40 {
+				continue // enough evidence on a broken tree; attack traces are still replayed
 			}
 			replay(b, roles[(i+int(*seed))%len(roles)], 4, *maxSig, res)
 		}
